@@ -130,6 +130,11 @@ def make_case(tier, seed, index):
         if base["name"] == "prev":
             characs.append({"name": "prev", "components": list(base["components"]), "denominator": "alive", "db": False, "setup": 0})
             flat["prev"] = list(base["components"])
+    # a set-up weight is any positive number (it weights the quantity's row in the least-squares system): a fifth of the set-up
+    # quantities get one other than 1
+    for q_ in list(spec["comps"]) + characs:
+        if q_.get("setup") == 1 and rng.random() < 0.2:
+            q_["setup"] = float(rng.choice([0.25, 0.5, 2.0, 3.0]))
     spec["characs"] = characs
     if rng.random() < 0.3:
         spec["charac_sheet_order"] = "reversed"  # nested characteristics and denominators are then defined *after* their users
